@@ -16,9 +16,11 @@ RULE = ("each law is evaluated as a relation between two or three runs of the RE
 TRUSTED = ["numpy/xarray labelled indexing used to read the returned weights"]
 
 LEARNERS = ["dict_ndl", "ndl:threading", "ndl:openmp"]
+POL = [2]      # duplicate policy of the trial being generated
 
 
 def mkjob(learner, es, p, pol=2, weights=None, alpha=None):
+    pol = POL[0]
     j = {"events": es, "pol": pol, "beta1": rwlib.nd(p["beta1"]), "beta2": rwlib.nd(p["beta2"]),
          "lam": rwlib.nd(p["lam"])}
     a = p["alpha"] if alpha is None else alpha
@@ -58,18 +60,21 @@ def run(ctx):
     n_trials = 150 if ctx.thorough else 45
     for t in range(n_trials):
         learner = LEARNERS[t % 3]
-        es = rwlib.gen_events(rng, rng.randint(2, 9), n_cue_alpha=5, n_out_alpha=4, max_cues=3, max_outs=2,
-                              dups=True, outcome_less=False, file_form=True)
+        pol = [2, 1, 0][(t // 3) % 3]
+        es = rwlib.gen_events(rng, rng.randint(2, 9), n_cue_alpha=rng.choice([5, 12]),
+                              n_out_alpha=rng.choice([4, 12, 20]), max_cues=3, max_outs=rng.choice([2, 4]),
+                              dups=pol != 0, outcome_less=False, file_form=True)
         p = rwlib.gen_params(rng)
         no, nc = rwlib.label_sets(es)
         outs, cues = list(no.names), list(nc.names)
-        tr = {"learner": learner, "es": es, "p": p, "rel": {}}
+        POL[0] = pol
+        tr = {"learner": learner, "es": es, "p": p, "rel": {}, "pol": pol}
         base = add(mkjob(learner, es, p))
         tr["base"] = base
         # R1 row locality: keep only the target outcome (others removed) / rename the others
         target = rng.choice(outs)
         es_rm = [[cs, [o for o in os_ if o == target] or ["other"]] for cs, os_ in es]
-        es_rn = [[cs, [o if o == target else "ren_" + o for o in os_]] for cs, os_ in es]
+        es_rn = [[cs, [o if o == target else "ren-" + o for o in os_]] for cs, os_ in es]
         tr["rel"]["row_locality"] = (target, add(mkjob(learner, es_rm, p)), add(mkjob(learner, es_rn, p)))
         # R2 equivariance
         fc = {c: "k%d_%s" % (i, c[::-1]) for i, c in enumerate(reversed(cues))}
@@ -113,7 +118,9 @@ def run(ctx):
     rep.lap("law_runs")
     law_violation = False
     for tr in trials:
-        d = {"learner": tr["learner"], "events": tr["es"], "p": {k: str(v) for k, v in tr["p"].items()}}
+        d = {"learner": tr["learner"], "events": tr["es"], "p": {k: str(v) for k, v in tr["p"].items()},
+             "remove_duplicates": {0: None, 1: True, 2: False}[tr["pol"]]}
+        rep.hist("policy", d["remove_duplicates"])
         rep.case(d, nontrivial=len(tr["es"]) >= 2)
         rep.hist("learner", tr["learner"])
         idxs = [tr["base"]]
